@@ -404,7 +404,7 @@ def corruptions(rng, w, desc):
 # ------------------------------------------------------------------------------------------------ the run
 def build_generated(rng, tier):
     """returns list of worlds: {domain_text, cases: [{text, expect, kind, klass, nontrivial, desc}]}"""
-    n_worlds = 22 if tier == "quick" else 220
+    n_worlds = 50 if tier == "quick" else 300
     worlds = []
     for wi in range(n_worlds):
         w = gen_domain(rng)
@@ -432,8 +432,48 @@ def build_generated(rng, tier):
                 ctext = G.render(problem_tree(cd), rng, noise=False)
                 cases.append({"text": ctext, "expect": "raised", "kind": "corrupt-" + kind, "klass": klass,
                               "nontrivial": True, "desc": cd})
+        cases += boundary_cases(rng, w, 10 if tier == "quick" else 60)
         worlds.append({"domain_text": dtext, "cases": cases, "source": "generated"})
     return worlds
+
+
+def boundary_cases(rng, w, cap):
+    """the accept/reject boundary of the type check: one object per type (plus the constants), and single-item
+    problems over EVERY argument tuple of every predicate / function (sampled down to cap per world); accepted iff
+    every argument's type is a subtype of the parameter's"""
+    import itertools
+    objs = [("b%s" % t.replace("object", "obj"), t) for t in w.all_types()]
+    uni = objs + list(w.consts)
+    items = []
+    for kind, decls in (("fact", w.preds), ("fluent", w.funcs)):
+        for n, ps in decls:
+            for combo in itertools.product(uni, repeat=len(ps)):
+                if kind == "fluent" and len(set(c[0] for c in combo)) < len(combo):
+                    continue                                   # repeated fluent arguments: class D07, exercised elsewhere
+                ok = all(w.is_sub(ct, pt) for (_, ct), (_, pt) in zip(combo, ps))
+                items.append((kind, n, [c[0] for c in combo], ok))
+    if len(items) > cap:
+        items = rng.sample(items, cap)
+    out = []
+    for kind, n, args, ok in items:
+        in_goal = rng.random() < 0.35
+        desc = {"name": "bnd", "domain": "dom", "objects": objs, "style": "typed", "init": [], "goal": []}
+        if kind == "fact":
+            if in_goal:
+                desc["goal"].append(["lit", n, args])
+            else:
+                desc["init"].append(["fact", n, args])
+        else:
+            if in_goal:
+                desc["goal"].append(["num", [rng.choice(CMPS), [n] + args, rng.choice(GOAL_NUMERALS)]])
+            else:
+                desc["init"].append(["fluent", n, args, rng.choice(NUMERALS)])
+        numeric_goal = kind == "fluent" and in_goal
+        text = G.render(problem_tree(desc), rng, noise=False)
+        out.append({"text": text, "expect": expected_dump(desc) if (ok or numeric_goal) else "raised",
+                    "kind": "type-boundary-%s-%s%s" % (kind, "goal-" if in_goal else "", "conforming" if ok else "foreign-type"),
+                    "klass": "D19d" if (numeric_goal and not ok) else None, "nontrivial": True, "desc": desc})
+    return out
 
 
 HAND_DOMAIN = ("(define (domain dom) (:requirements :typing :fluents) (:types t0 - object t1 - t0 t2) (:constants c0 - t1) "
@@ -562,6 +602,30 @@ def run_worlds(worlds, hashseed=0):
     return run_impl(jobs, hashseed=hashseed)
 
 
+KEYWORDS = ["and", "or", "not", "forall", "exists", "imply", "when", "=", "<=", ">=", "<", ">", "+", "-", "*", "/",
+            "assign", "increase", "decrease", "scale-up", "scale-down", "either"]
+OPERATORS = ["=", "!=", "<=", ">=", ">", "<", "+", "-", "/", "*", "increase", "decrease", "assign"]
+
+
+def hypotheses_report(results):
+    """the hypotheses of the theorems (dom_ok, num_ok), checked on the vocabularies and numeral tables of this run"""
+    rep = {"domains": 0, "domains_violating_dom_ok": [], "numeral_tables": 0, "numeral_tables_violating_num_ok": 0}
+    for res in results:
+        if "vocab" not in res:
+            continue
+        v = res["vocab"]
+        rep["domains"] += 1
+        cn = [c[0] for c in v["consts"]]
+        bad = [f[0] for f in v["funcs"] if f[0] in KEYWORDS]
+        if len(set(cn)) != len(cn) or bad:
+            rep["domains_violating_dom_ok"].append({"name": v["name"], "keyword_functions": bad})
+        for r in res["results"]:
+            rep["numeral_tables"] += 1
+            if any(k in OPERATORS for k in r.get("nums", {})):
+                rep["numeral_tables_violating_num_ok"] += 1
+    return rep
+
+
 def run(args):
     rep = Report(PROP, args.tier, args.seed)
     standard_proof_part(rep, PROP)
@@ -577,6 +641,8 @@ def run(args):
     results = run_worlds(worlds, hashseed=args.seed % 7)
     cases, lits, units = [], [], []
     dist = {}
+    raised_classes, sizes = {}, {"objects": 0, "facts": 0, "fluents": 0, "goal_literals": 0, "goal_numeric": 0,
+                                 "problems_with_repeated_fluent_argument": 0}
     outcomes = {"returned": 0, "raised": 0}
     domain_failures = []
     for w, res in zip(worlds, results):
@@ -589,6 +655,14 @@ def run(args):
             clits.append(case_lit(text, r, c["expect"]))
             dist[c["kind"]] = dist.get(c["kind"], 0) + 1
             outcomes["returned" if "dump" in r else "raised"] += 1
+            if "dump" in r:
+                d = r["dump"]
+                sizes["objects"] += len(d["objects"]); sizes["facts"] += len(d["facts"]); sizes["fluents"] += len(d["fluents"])
+                sizes["goal_literals"] += len(d["goal"]); sizes["goal_numeric"] += len(d["goal_num"])
+            else:
+                raised_classes[r.get("raised", "?")] = raised_classes.get(r.get("raised", "?"), 0) + 1
+            if c.get("klass") == "D07":
+                sizes["problems_with_repeated_fluent_argument"] += 1
             single = dict(w)
             single["cases"] = [c]
             cases.append({"lit": world_lit(res["vocab"], [clits[-1]]),
@@ -615,17 +689,22 @@ def run(args):
     cov = rep.coverage
     cov["input_distribution"] = dict(sorted(dist.items()))
     cov["outcomes"] = outcomes
+    cov["raised_exception_classes"] = dict(sorted(raised_classes.items()))
+    cov["sizes_total_of_accepted_problems"] = sizes
     cov["worlds"] = {"generated": sum(1 for w in worlds if w["source"] == "generated"),
                      "fixture_domains": sum(1 for w in worlds if w["source"] == "fixture"),
                      "fixture_problems": sum(len(w["cases"]) for w in worlds if w["source"] == "fixture"),
                      "fixture_problems_shipped": n_fixture_total, "fixture_problems_left_to_thorough_tier": n_fixture_skipped}
+    cov["theorem_hypotheses_checked"] = hypotheses_report(results)
     cov["exhaustive"] = False
     cov["rule"] = ("problems generated over pddlgen domains widened with binary/ternary functions (object list typed one by one / "
                    "grouped / trailing untyped / (:private ...) / mixed; arguments from objects of subtypes and domain constants; "
                    "repeated arguments; zero-arity atoms; numerals int/decimal/negative/exponent/.5/5./+4; numeric goals of depth <= 2), "
                    "EVERY single-point corruption of each D07-free valid problem (domain name, object type, and per init fact / fluent / "
                    "goal literal / goal fluent: name, arity+1, arity-1, undeclared object, ill-typed object, non-numeral value; sub-sampled "
-                   "to 14 per problem in the quick tier), hand-written deviation witnesses, shipped problem files each against its domain "
+                   "to 14 per problem in the quick tier), the type-check boundary (one object per type and the constants, single-item problems "
+                   "over every argument tuple of every predicate / function, sampled to 10 (quick) / 60 (thorough) per domain; accepted iff "
+                   "every argument conforms), hand-written deviation witnesses, shipped problem files each against its domain "
                    "(quick: files <= 2100 bytes). Non-trivial: >= 2 init/goal items or any corruption; distinct by input hash.")
     cov["samples"] = [{"kind": c["input"]["world"]["cases"][0]["kind"],
                        "text": (c["input"]["world"]["cases"][0].get("text") or c["input"]["world"]["cases"][0].get("path"))[:400]}
